@@ -4,6 +4,11 @@ Import ListNotations.
 From Mds Require Import Gen.QueueIdx Queue.QueueModel Queue.QueueSpec.
 Local Open Scope Z_scope.
 
+(* the shape the model's skeleton relies on: one slice.Rotate and one append in each of Add/Push *)
+Example gen_call_counts :
+  add_ncalls_rotate = 1 /\ add_ncalls_append = 1 /\ push_ncalls_rotate = 1 /\ push_ncalls_append = 1.
+Proof. repeat split. Qed.
+
 Section Proofs.
 Variable T : Type.
 Variable zero : T.
@@ -22,6 +27,743 @@ Proof.
     destruct ((k <? 0) || (k >=? n q)) eqn:E2; [reflexivity|].
     apply orb_false_iff in E2. destruct E2 as [A B].
     rewrite Z.geb_leb in B. apply Z.leb_gt in B. lia.
+Qed.
+
+
+(* ------------------------------------------------------------------ lists, Z-indexed *)
+Definition znth (l : list T) (i : Z) : T := nth (Z.to_nat i) l zero.
+
+Lemma zlen_nonneg : forall l : list T, 0 <= zlen T l.
+Proof. intros. unfold zlen. lia. Qed.
+
+Lemma idx_znth : forall l i, 0 <= i < zlen T l -> idx T l i = Some (znth l i).
+Proof.
+  intros l i H. unfold idx, znth, zlen in *.
+  destruct (i <? 0) eqn:E; [apply Z.ltb_lt in E; lia|].
+  apply nth_error_nth'. lia.
+Qed.
+
+Lemma upd_some : forall l i v, 0 <= i < zlen T l ->
+  exists l', upd T l i v = Some l' /\ zlen T l' = zlen T l /\
+    (forall j, 0 <= j -> znth l' j = if j =? i then v else znth l j).
+Proof.
+  intros l i v H. unfold upd, zlen in *.
+  assert (Hi : (Z.to_nat i < length l)%nat) by lia.
+  replace ((0 <=? i) && (i <? Z.of_nat (length l))) with true
+    by (symmetry; apply andb_true_iff; split; [apply Z.leb_le|apply Z.ltb_lt]; lia).
+  eexists. split; [reflexivity|]. split.
+  - rewrite app_length. cbn [length]. rewrite firstn_length, skipn_length. lia.
+  - intros j Hj. unfold znth.
+    assert (Hf : length (firstn (Z.to_nat i) l) = Z.to_nat i) by (rewrite firstn_length; lia).
+    destruct (j =? i) eqn:E.
+    + apply Z.eqb_eq in E. subst j.
+      rewrite app_nth2 by lia. rewrite Hf, Nat.sub_diag. reflexivity.
+    + apply Z.eqb_neq in E.
+      destruct (Z_lt_le_dec j i) as [L|L].
+      * rewrite app_nth1 by lia.
+        rewrite <- (firstn_skipn (Z.to_nat i) l) at 2.
+        rewrite app_nth1 by lia. reflexivity.
+      * rewrite app_nth2 by lia. rewrite Hf.
+        replace (Z.to_nat j - Z.to_nat i)%nat with (S (Z.to_nat j - Z.to_nat i - 1)) by lia.
+        cbn [nth].
+        rewrite <- (firstn_skipn (S (Z.to_nat i)) l) at 2.
+        rewrite app_nth2 by (rewrite firstn_length; lia).
+        rewrite firstn_length. f_equal. lia.
+Qed.
+
+Lemma upd_app : forall pre y r x, upd T (pre ++ y :: r) (zlen T pre) x = Some (pre ++ x :: r).
+Proof.
+  intros. unfold upd, zlen. rewrite app_length. cbn [length].
+  replace ((0 <=? Z.of_nat (length pre)) && (Z.of_nat (length pre) <? Z.of_nat (length pre + S (length r)))) with true
+    by (symmetry; apply andb_true_iff; split; [apply Z.leb_le|apply Z.ltb_lt]; lia).
+  rewrite Nat2Z.id. f_equal.
+  rewrite firstn_app, firstn_all, Nat.sub_diag. cbn [firstn]. rewrite app_nil_r. f_equal.
+  replace (S (length pre)) with (length pre + 1)%nat by lia.
+  rewrite skipn_app. rewrite skipn_all2 by lia.
+  replace (length pre + 1 - length pre)%nat with 1%nat by lia. reflexivity.
+Qed.
+
+(* a mod b for 0 <= a < 2b *)
+Lemma mod_wrap : forall a b, 0 < b -> 0 <= a < 2 * b -> a mod b = if a <? b then a else a - b.
+Proof.
+  intros a b Hb Ha. destruct (a <? b) eqn:E.
+  - apply Z.ltb_lt in E. apply Z.mod_small. lia.
+  - apply Z.ltb_ge in E. replace a with ((a - b) + 1 * b) at 1 by lia.
+    rewrite Z.mod_add by lia. apply Z.mod_small. lia.
+Qed.
+
+Lemma rem_wrap : forall a b, 0 < b -> 0 <= a -> Z.rem a b = a mod b.
+Proof. intros. apply Z.rem_mod_nonneg; lia. Qed.
+
+Lemma nth_map_seq : forall (g : nat -> T) s k i, (i < k)%nat -> nth i (map g (seq s k)) zero = g (s + i)%nat.
+Proof.
+  intros g s k i H.
+  rewrite (nth_indep _ zero (g 0%nat)) by (rewrite map_length, seq_length; lia).
+  rewrite map_nth. rewrite seq_nth by lia. reflexivity.
+Qed.
+
+Lemma map_seq_id : forall l : list T, map (fun i => nth i l zero) (seq 0 (length l)) = l.
+Proof.
+  intros l. apply (nth_ext _ _ zero zero).
+  - rewrite map_length, seq_length. reflexivity.
+  - intros i Hi. rewrite map_length, seq_length in Hi. rewrite nth_map_seq by lia. reflexivity.
+Qed.
+
+Lemma map_seq_firstn : forall (l : list T) k, (k <= length l)%nat ->
+  map (fun i => nth i l zero) (seq 0 k) = firstn k l.
+Proof.
+  intros l k H. apply (nth_ext _ _ zero zero).
+  - rewrite map_length, seq_length, firstn_length. lia.
+  - intros i Hi. rewrite map_length, seq_length in Hi. rewrite nth_map_seq by lia.
+    rewrite <- (firstn_skipn k l) at 1. rewrite app_nth1 by (rewrite firstn_length; lia). reflexivity.
+Qed.
+
+Lemma map_seq_shift : forall (g : nat -> T) s k, map g (seq (S s) k) = map (fun i => g (S i)) (seq s k).
+Proof. intros. rewrite <- seq_shift, map_map. reflexivity. Qed.
+
+
+(* ------------------------------------------------------------------ abstraction and invariant *)
+Definition ring (q : queue T) (i : nat) : T :=
+  znth (vs q) ((head q + Z.of_nat i) mod zlen T (vs q)).
+
+(* abs q = [ vs[(head+i) mod len] | i < n ] *)
+Definition abs (q : queue T) : list T := map (ring q) (seq 0 (Z.to_nat (n q))).
+
+Definition inv (q : queue T) : Prop :=
+  0 <= n q <= zlen T (vs q) /\ 0 <= head q /\
+  (head q < zlen T (vs q) \/ head q = 0) /\ (n q = 0 -> head q = 0).
+
+Ltac zb := repeat match goal with
+  | H : (_ <? _) = true |- _ => apply Z.ltb_lt in H
+  | H : (_ <? _) = false |- _ => apply Z.ltb_ge in H
+  | H : (_ <=? _) = true |- _ => apply Z.leb_le in H
+  | H : (_ <=? _) = false |- _ => apply Z.leb_gt in H
+  | H : (_ =? _) = true |- _ => apply Z.eqb_eq in H
+  | H : (_ =? _) = false |- _ => apply Z.eqb_neq in H
+  | H : (_ >=? _) = _ |- _ => rewrite Z.geb_leb in H
+  | H : (_ >? _) = _ |- _ => rewrite Z.gtb_ltb in H
+  end.
+
+Lemma abs_length : forall q, length (abs q) = Z.to_nat (n q).
+Proof. intros. unfold abs. rewrite map_length, seq_length. reflexivity. Qed.
+
+Lemma abs_nil : forall q, n q <= 0 -> abs q = [].
+Proof. intros q H. unfold abs. replace (Z.to_nat (n q)) with 0%nat by lia. reflexivity. Qed.
+
+Lemma abs_head0 : forall q, head q = 0 -> 0 <= n q <= zlen T (vs q) ->
+  abs q = firstn (Z.to_nat (n q)) (vs q).
+Proof.
+  intros q Hh Hn. unfold abs. rewrite <- map_seq_firstn by (unfold zlen in Hn; lia).
+  apply map_ext_in. intros i Hi. apply in_seq in Hi. unfold ring, znth. rewrite Hh.
+  rewrite Z.mod_small by (unfold zlen in *; lia). f_equal. lia.
+Qed.
+
+Lemma add_room : forall q v c, inv q -> n q < zlen T (vs q) ->
+  exists q', add T zero q v c = Ok q' /\ inv q' /\ abs q' = abs q ++ [v] /\
+             zlen T (vs q') = zlen T (vs q) /\ n q' = n q + 1.
+Proof.
+  intros q v c (Hn & Hh0 & Hh & He) Hroom.
+  unfold add, add_has_room, add_pos, add_wrap_cond, add_wrap_pos, add_store_idx, add_n.
+  set (L := zlen T (vs q)) in *.
+  replace (n q <? L) with true by (symmetry; apply Z.ltb_lt; lia).
+  assert (HL : 0 < L) by lia.
+  assert (Hh' : head q < L) by lia.
+  set (pos := if head q + n q >=? L then head q + n q - L else head q + n q).
+  assert (Hpos : pos = (head q + n q) mod L).
+  { rewrite mod_wrap by lia. subst pos. rewrite Z.geb_leb.
+    destruct (L <=? head q + n q) eqn:E1; destruct (head q + n q <? L) eqn:E2; zb; lia. }
+  assert (Hpr : 0 <= pos < L) by (rewrite Hpos; apply Z.mod_pos_bound; lia).
+  destruct (upd_some (vs q) pos v Hpr) as (vs' & Hu & Hl & Hz).
+  rewrite Hu. cbn [of_opt bind]. eexists. split; [reflexivity|].
+  split; [|split; [|split]]; cbn [vs head n].
+  - unfold inv; cbn [vs head n]. rewrite Hl. fold L. repeat split; lia.
+  - unfold abs; cbn [vs head n].
+    replace (Z.to_nat (n q + 1)) with (S (Z.to_nat (n q))) by lia.
+    rewrite seq_S, map_app. cbn [map Nat.add]. f_equal.
+    + apply map_ext_in. intros i Hi. apply in_seq in Hi. unfold ring; cbn [vs head n].
+      rewrite Hl. fold L. rewrite Hz by (apply Z.mod_pos_bound; lia).
+      replace ((head q + Z.of_nat i) mod L =? pos) with false; [reflexivity|].
+      symmetry. apply Z.eqb_neq. rewrite Hpos. rewrite !mod_wrap by lia.
+      destruct (head q + Z.of_nat i <? L) eqn:E1; destruct (head q + n q <? L) eqn:E2; zb; lia.
+    + unfold ring; cbn [vs head n]. rewrite Hl. fold L. rewrite Z2Nat.id by lia.
+      rewrite Hz by (apply Z.mod_pos_bound; lia). rewrite <- Hpos, Z.eqb_refl. reflexivity.
+  - exact Hl.
+  - reflexivity.
+Qed.
+
+
+Lemma push_room : forall q v c, inv q -> n q < zlen T (vs q) ->
+  exists q', push T zero q v c = Ok q' /\ inv q' /\ abs q' = v :: abs q /\
+             zlen T (vs q') = zlen T (vs q) /\ n q' = n q + 1.
+Proof.
+  intros q v c (Hn & Hh0 & Hh & He) Hroom.
+  unfold push, push_has_room, push_pos, push_wrap_cond, push_wrap_pos, push_store_idx, push_head, push_n.
+  set (L := zlen T (vs q)) in *.
+  replace (n q <? L) with true by (symmetry; apply Z.ltb_lt; lia).
+  assert (HL : 0 < L) by lia.
+  assert (Hh' : head q < L) by lia.
+  set (pos := if head q - 1 <? 0 then L - 1 else head q - 1).
+  assert (Hpe : (head q = 0 /\ pos = L - 1) \/ (head q > 0 /\ pos = head q - 1)).
+  { subst pos. destruct (head q - 1 <? 0) eqn:E; zb; lia. }
+  assert (Hpr : 0 <= pos < L) by lia.
+  destruct (upd_some (vs q) pos v Hpr) as (vs' & Hu & Hl & Hz).
+  rewrite Hu. cbn [of_opt bind]. eexists. split; [reflexivity|].
+  split; [|split; [|split]]; cbn [vs head n].
+  - unfold inv; cbn [vs head n]. rewrite Hl. fold L. repeat split; lia.
+  - unfold abs; cbn [vs head n].
+    replace (Z.to_nat (n q + 1)) with (S (Z.to_nat (n q))) by lia.
+    cbn [seq map]. f_equal.
+    + unfold ring; cbn [vs head n]. rewrite Hl. fold L. rewrite Z.add_0_r, Z.mod_small by lia.
+      rewrite Hz by lia. rewrite Z.eqb_refl. reflexivity.
+    + rewrite map_seq_shift. apply map_ext_in. intros i Hi. apply in_seq in Hi.
+      unfold ring; cbn [vs head n]. rewrite Hl. fold L.
+      rewrite Hz by (apply Z.mod_pos_bound; lia).
+      assert (Hm : (pos + Z.of_nat (S i)) mod L = (head q + Z.of_nat i) mod L).
+      { rewrite !mod_wrap by lia.
+        destruct (pos + Z.of_nat (S i) <? L) eqn:E1; destruct (head q + Z.of_nat i <? L) eqn:E2; zb; lia. }
+      rewrite Hm.
+      replace ((head q + Z.of_nat i) mod L =? pos) with false; [reflexivity|].
+      symmetry. apply Z.eqb_neq. rewrite mod_wrap by lia.
+      destruct (head q + Z.of_nat i <? L) eqn:E1; zb; lia.
+  - exact Hl.
+  - reflexivity.
+Qed.
+
+
+(* the "rotate to the initial regime" block, on a full ring: the buffer becomes exactly abs q *)
+Lemma rotate_home_full : forall cond kf nh q,
+  (forall h, cond h = (h >? 0)) -> (forall h, kf h = - h) -> nh = 0 ->
+  inv q -> n q = zlen T (vs q) ->
+  rotate_home T cond kf nh q = Ok (abs q, 0).
+Proof.
+  intros cond kf nh q Hc Hk Hnh (Hn & Hh0 & Hh & He) Hfull.
+  unfold rotate_home. rewrite Hc, Hk, Hnh.
+  set (L := zlen T (vs q)) in *.
+  destruct (head q >? 0) eqn:E; zb.
+  - assert (Hh' : head q < L) by lia.
+    unfold rotate_list. fold L.
+    replace (- head q <? 0) with true by (symmetry; apply Z.ltb_lt; lia).
+    replace ((- head q + L <? 0) || (- head q + L >? L)) with false.
+    2:{ symmetry. apply orb_false_iff. rewrite Z.gtb_ltb. split; apply Z.ltb_ge; lia. }
+    cbn [of_opt bind]. do 2 f_equal.
+    replace (Z.to_nat (L - (- head q + L))) with (Z.to_nat (head q)) by lia.
+    set (h := Z.to_nat (head q)).
+    assert (HLn : length (vs q) = Z.to_nat L) by (unfold L, zlen; lia).
+    assert (Hf : length (firstn h (vs q)) = h) by (rewrite firstn_length; lia).
+    assert (Hs : length (skipn h (vs q)) = (Z.to_nat L - h)%nat) by (rewrite skipn_length; lia).
+    apply (nth_ext _ _ zero zero).
+    + rewrite app_length, Hf, Hs, abs_length. lia.
+    + intros i Hi. rewrite app_length, Hf, Hs in Hi.
+      unfold abs. rewrite nth_map_seq by lia. unfold ring, znth. fold L.
+      rewrite mod_wrap by lia. cbn [Nat.add].
+      destruct (head q + Z.of_nat i <? L) eqn:E1; zb.
+      * rewrite app_nth1 by lia.
+        rewrite <- (firstn_skipn h (vs q)) at 2. rewrite app_nth2 by lia. rewrite Hf. f_equal. lia.
+      * rewrite app_nth2 by lia. rewrite Hs.
+        rewrite <- (firstn_skipn h (vs q)) at 2. rewrite app_nth1 by lia. f_equal. lia.
+  - assert (head q = 0) by lia. cbn [of_opt bind]. do 2 f_equal; [|assumption].
+    rewrite abs_head0 by lia. rewrite Hfull. unfold L, zlen. rewrite Nat2Z.id, firstn_all. reflexivity.
+Qed.
+
+Lemma abs_zlen : forall q, 0 <= n q -> zlen T (abs q) = n q.
+Proof. intros. unfold zlen. rewrite abs_length. lia. Qed.
+
+Lemma add_grow : forall q v c, inv q -> ~ n q < zlen T (vs q) -> c > zlen T (vs q) ->
+  exists q', add T zero q v c = Ok q' /\ inv q' /\ abs q' = abs q ++ [v] /\
+             zlen T (vs q') = c /\ n q' = n q + 1.
+Proof.
+  intros q v c Hinv Hfull Hc. pose proof Hinv as (Hn & Hh0 & Hh & He).
+  assert (Hf : n q = zlen T (vs q)) by lia.
+  unfold add, add_has_room, add_grow_hi, add_grow_n.
+  replace (n q <? zlen T (vs q)) with false by (symmetry; apply Z.ltb_ge; lia).
+  rewrite (rotate_home_full add_rot_cond add_rot_k add_rot_head q) by (auto; reflexivity).
+  cbn [bind]. unfold append_cap. rewrite abs_zlen by lia.
+  replace (c >? n q) with true by (symmetry; rewrite Z.gtb_ltb; apply Z.ltb_lt; lia).
+  set (w := abs q ++ v :: repeat zero (Z.to_nat (c - n q - 1))).
+  assert (Hw : length w = Z.to_nat c).
+  { unfold w. rewrite app_length, abs_length. cbn [length]. rewrite repeat_length. lia. }
+  unfold reslice. replace ((0 <=? c) && (c <=? c)) with true
+    by (symmetry; apply andb_true_iff; split; apply Z.leb_le; lia).
+  cbn [of_opt bind]. rewrite firstn_all2 by lia.
+  eexists. split; [reflexivity|]. split; [|split; [|split]]; cbn [vs head n].
+  - unfold inv; cbn [vs head n]. unfold zlen. rewrite Hw. repeat split; lia.
+  - rewrite abs_head0; cbn [vs head n]; [|reflexivity|unfold zlen; rewrite Hw; lia].
+    replace (Z.to_nat (n q + 1)) with (length (abs q) + 1)%nat by (rewrite abs_length; lia).
+    unfold w. rewrite firstn_app_2. reflexivity.
+  - unfold zlen. rewrite Hw. lia.
+  - reflexivity.
+Qed.
+
+Lemma add_bad_oracle : forall q v c, inv q -> ~ n q < zlen T (vs q) -> c <= zlen T (vs q) ->
+  add T zero q v c = BadOracle.
+Proof.
+  intros q v c Hinv Hfull Hc. pose proof Hinv as (Hn & Hh0 & Hh & He).
+  assert (Hf : n q = zlen T (vs q)) by lia.
+  unfold add, add_has_room.
+  replace (n q <? zlen T (vs q)) with false by (symmetry; apply Z.ltb_ge; lia).
+  rewrite (rotate_home_full add_rot_cond add_rot_k add_rot_head q) by (auto; reflexivity).
+  cbn [bind]. unfold append_cap. rewrite abs_zlen by lia.
+  replace (c >? n q) with false by (symmetry; rewrite Z.gtb_ltb; apply Z.ltb_ge; lia).
+  reflexivity.
+Qed.
+
+Lemma push_grow : forall q v c, inv q -> ~ n q < zlen T (vs q) -> c > zlen T (vs q) ->
+  exists q', push T zero q v c = Ok q' /\ inv q' /\ abs q' = v :: abs q /\
+             zlen T (vs q') = c /\ n q' = n q + 1.
+Proof.
+  intros q v c Hinv Hfull Hc. pose proof Hinv as (Hn & Hh0 & Hh & He).
+  assert (Hf : n q = zlen T (vs q)) by lia.
+  unfold push, push_has_room, push_grow_hi, push_grow_n, push_grow_head, push_grow_store_idx.
+  replace (n q <? zlen T (vs q)) with false by (symmetry; apply Z.ltb_ge; lia).
+  rewrite (rotate_home_full push_rot_cond push_rot_k push_rot_head q) by (auto; reflexivity).
+  cbn [bind]. unfold append_cap. rewrite abs_zlen by lia.
+  replace (c >? n q) with true by (symmetry; rewrite Z.gtb_ltb; apply Z.ltb_lt; lia).
+  set (w := abs q ++ v :: repeat zero (Z.to_nat (c - n q - 1))).
+  assert (Hw : length w = Z.to_nat c).
+  { unfold w. rewrite app_length, abs_length. cbn [length]. rewrite repeat_length. lia. }
+  unfold reslice. replace ((0 <=? c) && (c <=? c)) with true
+    by (symmetry; apply andb_true_iff; split; apply Z.leb_le; lia).
+  cbn [of_opt bind]. rewrite firstn_all2 by lia.
+  assert (Hzw : zlen T w = c) by (unfold zlen; rewrite Hw; lia).
+  rewrite Hzw.
+  destruct (upd_some w (c - 1) v) as (vs3 & Hu & Hl & Hz); [lia|].
+  rewrite Hu. cbn [of_opt bind].
+  eexists. split; [reflexivity|]. split; [|split; [|split]]; cbn [vs head n].
+  - unfold inv; cbn [vs head n]. rewrite Hl, Hzw. repeat split; lia.
+  - unfold abs at 1; cbn [vs head n].
+    replace (Z.to_nat (n q + 1)) with (S (Z.to_nat (n q))) by lia.
+    cbn [seq map]. f_equal.
+    + unfold ring; cbn [vs head n]. rewrite Hl, Hzw. rewrite Z.add_0_r, Z.mod_small by lia.
+      rewrite Hz by lia. rewrite Z.eqb_refl. reflexivity.
+    + rewrite map_seq_shift. rewrite <- (map_seq_id (abs q)) at 1. rewrite abs_length.
+      apply map_ext_in. intros i Hi. apply in_seq in Hi.
+      unfold ring; cbn [vs head n]. rewrite Hl, Hzw.
+      replace ((c - 1 + Z.of_nat (S i)) mod c) with (Z.of_nat i).
+      2:{ rewrite mod_wrap by lia. destruct (c - 1 + Z.of_nat (S i) <? c) eqn:E; zb; lia. }
+      rewrite Hz by lia.
+      replace (Z.of_nat i =? c - 1) with false by (symmetry; apply Z.eqb_neq; lia).
+      unfold znth. rewrite Nat2Z.id. unfold w. rewrite app_nth1 by (rewrite abs_length; lia). reflexivity.
+  - rewrite Hl. exact Hzw.
+  - reflexivity.
+Qed.
+
+Lemma push_bad_oracle : forall q v c, inv q -> ~ n q < zlen T (vs q) -> c <= zlen T (vs q) ->
+  push T zero q v c = BadOracle.
+Proof.
+  intros q v c Hinv Hfull Hc. pose proof Hinv as (Hn & Hh0 & Hh & He).
+  assert (Hf : n q = zlen T (vs q)) by lia.
+  unfold push, push_has_room.
+  replace (n q <? zlen T (vs q)) with false by (symmetry; apply Z.ltb_ge; lia).
+  rewrite (rotate_home_full push_rot_cond push_rot_k push_rot_head q) by (auto; reflexivity).
+  cbn [bind]. unfold append_cap. rewrite abs_zlen by lia.
+  replace (c >? n q) with false by (symmetry; rewrite Z.gtb_ltb; apply Z.ltb_ge; lia).
+  reflexivity.
+Qed.
+
+
+Lemma pop_empty_q : forall q, n q = 0 -> pop T zero q = Ok (q, (zero, false)).
+Proof. intros q H. unfold pop, pop_empty. rewrite H. reflexivity. Qed.
+
+Lemma pop_nonempty : forall q, inv q -> 0 < n q ->
+  exists q' x, pop T zero q = Ok (q', (x, true)) /\ inv q' /\ abs q = x :: abs q' /\
+               zlen T (vs q') = zlen T (vs q) /\ n q' = n q - 1.
+Proof.
+  intros q (Hn & Hh0 & Hh & He) Hpos.
+  unfold pop, pop_empty, pop_idx, pop_n, pop_now_empty, pop_head_reset, pop_head_next.
+  set (L := zlen T (vs q)) in *.
+  replace (n q =? 0) with false by (symmetry; apply Z.eqb_neq; lia).
+  assert (Hh' : head q < L) by lia.
+  rewrite idx_znth by (fold L; lia). cbn [of_opt bind].
+  assert (Hab : abs q = znth (vs q) (head q) :: map (fun i => ring q (S i)) (seq 0 (Z.to_nat (n q - 1)))).
+  { unfold abs. replace (Z.to_nat (n q)) with (S (Z.to_nat (n q - 1))) by lia.
+    cbn [seq map]. rewrite map_seq_shift. f_equal.
+    unfold ring. fold L. rewrite Z.add_0_r, Z.mod_small by lia. reflexivity. }
+  destruct (n q - 1 =? 0) eqn:E; zb.
+  - cbn [bind]. do 2 eexists. split; [reflexivity|].
+    split; [|split; [|split]]; cbn [vs head n].
+    + unfold inv; cbn [vs head n]. fold L. repeat split; lia.
+    + rewrite Hab. f_equal. unfold abs; cbn [vs head n]. rewrite E. reflexivity.
+    + reflexivity.
+    + reflexivity.
+  - unfold checked_rem. replace (L =? 0) with false by (symmetry; apply Z.eqb_neq; lia).
+    cbn [bind]. do 2 eexists. split; [reflexivity|].
+    rewrite rem_wrap by lia.
+    split; [|split; [|split]]; cbn [vs head n].
+    + unfold inv; cbn [vs head n]. fold L.
+      pose proof (Z.mod_pos_bound (head q + 1) L). repeat split; lia.
+    + rewrite Hab. f_equal. unfold abs; cbn [vs head n].
+      apply map_ext_in. intros i Hi. unfold ring; cbn [vs head n]. fold L.
+      rewrite Zplus_mod_idemp_l. do 2 f_equal. lia.
+    + reflexivity.
+    + reflexivity.
+Qed.
+
+Lemma pop_last_empty_q : forall q, n q = 0 -> pop_last T zero q = Ok (q, (zero, false)).
+Proof. intros q H. unfold pop_last, poplast_empty. rewrite H. reflexivity. Qed.
+
+Lemma pop_last_nonempty : forall q, inv q -> 0 < n q ->
+  exists q' x, pop_last T zero q = Ok (q', (x, true)) /\ inv q' /\ abs q = abs q' ++ [x] /\
+               zlen T (vs q') = zlen T (vs q) /\ n q' = n q - 1.
+Proof.
+  intros q (Hn & Hh0 & Hh & He) Hpos.
+  unfold pop_last, poplast_empty, poplast_pos, poplast_wrap_cond, poplast_wrap_pos, poplast_idx,
+    poplast_n, poplast_now_empty, poplast_head_reset.
+  set (L := zlen T (vs q)) in *.
+  replace (n q =? 0) with false by (symmetry; apply Z.eqb_neq; lia).
+  assert (Hh' : head q < L) by lia.
+  set (pos := if head q + n q - 1 >=? L then head q + n q - 1 - L else head q + n q - 1).
+  assert (Hp : pos = (head q + (n q - 1)) mod L).
+  { rewrite mod_wrap by lia. subst pos. rewrite Z.geb_leb.
+    destruct (L <=? head q + n q - 1) eqn:E1; destruct (head q + (n q - 1) <? L) eqn:E2; zb; lia. }
+  assert (Hpr : 0 <= pos < L) by (rewrite Hp; apply Z.mod_pos_bound; lia).
+  rewrite idx_znth by (fold L; lia). cbn [of_opt bind].
+  do 2 eexists. split; [reflexivity|].
+  assert (Hab : abs q = map (ring q) (seq 0 (Z.to_nat (n q - 1))) ++ [znth (vs q) pos]).
+  { unfold abs. replace (Z.to_nat (n q)) with (S (Z.to_nat (n q - 1))) by lia.
+    rewrite seq_S, map_app. cbn [map Nat.add]. do 2 f_equal.
+    unfold ring. fold L. rewrite Hp. do 2 f_equal. lia. }
+  split; [|split; [|split]]; cbn [vs head n].
+  - unfold inv; cbn [vs head n]. fold L.
+    destruct (n q - 1 =? 0) eqn:E; zb; repeat split; lia.
+  - rewrite Hab. f_equal. unfold abs; cbn [vs head n].
+    destruct (n q - 1 =? 0) eqn:E; zb.
+    + rewrite E. reflexivity.
+    + reflexivity.
+  - reflexivity.
+  - reflexivity.
+Qed.
+
+
+(* ------------------------------------------------------------------ observers *)
+Lemma front_ok : forall q, inv q -> front T zero q = Ok (hd zero (abs q)).
+Proof.
+  intros q (Hn & Hh0 & Hh & He). unfold front, front_empty, front_idx.
+  destruct (n q =? 0) eqn:E; zb.
+  - rewrite abs_nil by lia. reflexivity.
+  - rewrite idx_znth by lia. cbn [of_opt]. f_equal.
+    unfold abs. replace (Z.to_nat (n q)) with (S (Z.to_nat (n q - 1))) by lia.
+    cbn [seq map hd]. unfold ring. rewrite Z.add_0_r, Z.mod_small by lia. reflexivity.
+Qed.
+
+Lemma peek_ok : forall q k, inv q -> peek T zero q k = Ok (spec_peek T zero (abs q) k).
+Proof.
+  intros q k (Hn & Hh0 & Hh & He). unfold peek, spec_peek, peek_neg, peek_adj, peek_out, peek_idx, peek_load_idx.
+  rewrite abs_length. rewrite Z2Nat.id by lia.
+  set (k' := if k <? 0 then k + n q else k).
+  set (L := zlen T (vs q)) in *.
+  destruct ((k' <? 0) || (k' >=? n q)) eqn:E.
+  - replace ((0 <=? k') && (k' <? n q)) with false; [reflexivity|].
+    symmetry. apply andb_false_iff. apply orb_true_iff in E. destruct E as [E|E]; zb.
+    + left. apply Z.leb_gt. lia.
+    + right. apply Z.ltb_ge. lia.
+  - apply orb_false_iff in E. destruct E as [E1 E2]. zb.
+    replace ((0 <=? k') && (k' <? n q)) with true
+      by (symmetry; apply andb_true_iff; split; [apply Z.leb_le|apply Z.ltb_lt]; lia).
+    unfold checked_rem. replace (L =? 0) with false by (symmetry; apply Z.eqb_neq; lia).
+    cbn [bind]. rewrite rem_wrap by lia.
+    rewrite idx_znth by (apply Z.mod_pos_bound; lia). cbn [of_opt bind]. do 2 f_equal.
+    unfold abs. rewrite nth_map_seq by lia. unfold ring. fold L. cbn [Nat.add].
+    rewrite Z2Nat.id by lia. reflexivity.
+Qed.
+
+Section EachProof.
+Variable A : Type.
+Variable f : A -> T -> A * bool.
+
+Lemma each_loop_ok : forall q k j a,
+  0 < zlen T (vs q) -> 0 <= head q ->
+  each_loop T A f k (vs q) ((head q + Z.of_nat j) mod zlen T (vs q)) a
+  = Ok (spec_each T f (map (ring q) (seq j k)) a).
+Proof.
+  intros q k. induction k as [|k IH]; intros j a HL Hh; [reflexivity|].
+  cbn [each_loop seq map spec_each]. unfold each_idx, each_next.
+  set (L := zlen T (vs q)) in *.
+  rewrite idx_znth by (apply Z.mod_pos_bound; lia). cbn [of_opt bind].
+  change (znth (vs q) ((head q + Z.of_nat j) mod L)) with (ring q j). destruct (f a (ring q j)) as [a' cont]. destruct cont; [|reflexivity].
+  unfold checked_rem. replace (L =? 0) with false by (symmetry; apply Z.eqb_neq; lia).
+  cbn [bind]. rewrite rem_wrap by (pose proof (Z.mod_pos_bound (head q + Z.of_nat j) L); lia).
+  rewrite Zplus_mod_idemp_l.
+  replace (head q + Z.of_nat j + 1) with (head q + Z.of_nat (S j)) by lia.
+  apply IH; assumption.
+Qed.
+
+Lemma each_ok : forall q a, inv q -> each T A f q a = Ok (spec_each T f (abs q) a).
+Proof.
+  intros q a (Hn & Hh0 & Hh & He). unfold each, each_count, each_start.
+  destruct (Z.eq_dec (n q) 0) as [E|E].
+  - rewrite abs_nil by lia. rewrite E. reflexivity.
+  - pose proof (each_loop_ok q (Z.to_nat (n q)) 0%nat a) as H. cbn [Z.of_nat] in H.
+    rewrite Z.add_0_r, Z.mod_small in H by lia. apply H; lia.
+Qed.
+End EachProof.
+
+Lemma spec_each_collect : forall l acc m,
+  fst (spec_each T (collect T) l (acc, m)) = (acc ++ firstn (S m) l).
+Proof.
+  induction l as [|x r IH]; intros acc m.
+  - cbn. rewrite app_nil_r. reflexivity.
+  - cbn [spec_each collect]. destruct m as [|b].
+    + reflexivity.
+    + rewrite IH. rewrite <- app_assoc. reflexivity.
+Qed.
+
+Lemma slice_loop_ok : forall q k j pre rest,
+  0 < zlen T (vs q) -> 0 <= head q -> length pre = j -> (k <= length rest)%nat ->
+  slice_loop T k (Z.of_nat j) (vs q) ((head q + Z.of_nat j) mod zlen T (vs q)) (pre ++ rest)
+  = Ok (pre ++ map (ring q) (seq j k) ++ skipn k rest).
+Proof.
+  intros q k. induction k as [|k IH]; intros j pre rest HL Hh Hp Hr; [reflexivity|].
+  destruct rest as [|y r]; [cbn in Hr; lia|].
+  cbn [slice_loop seq map skipn]. unfold slice_src_idx, slice_dst_idx, slice_next.
+  set (L := zlen T (vs q)) in *.
+  rewrite idx_znth by (apply Z.mod_pos_bound; lia). cbn [of_opt bind].
+  change (znth (vs q) ((head q + Z.of_nat j) mod L)) with (ring q j).
+  replace (Z.of_nat j) with (zlen T pre) at 1 by (unfold zlen; lia).
+  rewrite upd_app. cbn [of_opt bind].
+  unfold checked_rem. replace (L =? 0) with false by (symmetry; apply Z.eqb_neq; lia).
+  cbn [bind]. rewrite rem_wrap by (pose proof (Z.mod_pos_bound (head q + Z.of_nat j) L); lia).
+  rewrite Zplus_mod_idemp_l.
+  replace (head q + Z.of_nat j + 1) with (head q + Z.of_nat (S j)) by lia.
+  replace (Z.of_nat j + 1) with (Z.of_nat (S j)) by lia.
+  replace (pre ++ ring q j :: r) with ((pre ++ [ring q j]) ++ r) by (rewrite <- app_assoc; reflexivity).
+  rewrite IH; try assumption.
+  - rewrite <- app_assoc. reflexivity.
+  - rewrite app_length. cbn [length]. lia.
+  - cbn [length] in Hr. lia.
+Qed.
+
+Lemma slice_ok : forall q, inv q -> slice T zero q = Ok (abs q).
+Proof.
+  intros q (Hn & Hh0 & Hh & He). unfold slice, slice_empty, slice_buflen, slice_count, slice_start.
+  destruct (n q =? 0) eqn:E; zb.
+  - rewrite abs_nil by lia. reflexivity.
+  - unfold make. replace (n q <? 0) with false by (symmetry; apply Z.ltb_ge; lia).
+    cbn [of_opt bind].
+    pose proof (slice_loop_ok q (Z.to_nat (n q)) 0%nat [] (repeat zero (Z.to_nat (n q)))) as H.
+    cbn [Z.of_nat app] in H. rewrite Z.add_0_r, Z.mod_small in H by lia.
+    rewrite H; try lia; try reflexivity.
+    + rewrite skipn_all2 by (rewrite repeat_length; lia). rewrite app_nil_r. reflexivity.
+    + rewrite repeat_length. lia.
+Qed.
+
+
+(* ------------------------------------------------------------------ one step *)
+Lemma abs_cons_of_pos : forall q, 0 < n q -> exists x r, abs q = x :: r.
+Proof.
+  intros q H. unfold abs. replace (Z.to_nat (n q)) with (S (Z.to_nat (n q - 1))) by lia.
+  cbn [seq map]. eauto.
+Qed.
+
+Lemma step_refines : forall q o, inv q -> oracle_valid T (zlen T (vs q)) (n q) o ->
+  exists q' r, step T zero q o = Ok (q', r) /\ inv q' /\
+    spec_step T zero (abs q) o = (abs q', r) /\
+    (zlen T (vs q'), n q') = cap_next T (zlen T (vs q)) (n q) o.
+Proof.
+  intros q o Hinv Hval. pose proof Hinv as (Hn & Hh0 & Hh & He).
+  destruct o as [v c|v c| | | | | | |k|m|]; cbn [step spec_step cap_next oracle_valid] in *.
+  - (* Add *)
+    destruct (Z_lt_dec (n q) (zlen T (vs q))) as [R|R].
+    + destruct (add_room q v c Hinv R) as (q' & Hs & Hi & Ha & Hl & Hn').
+      rewrite Hs. cbn [bind]. do 2 eexists. split; [reflexivity|]. split; [exact Hi|].
+      split; [rewrite Ha; reflexivity|].
+      replace (n q <? zlen T (vs q)) with true by (symmetry; apply Z.ltb_lt; lia).
+      rewrite Hl, Hn'. reflexivity.
+    + destruct (add_grow q v c Hinv R) as (q' & Hs & Hi & Ha & Hl & Hn'); [lia|].
+      rewrite Hs. cbn [bind]. do 2 eexists. split; [reflexivity|]. split; [exact Hi|].
+      split; [rewrite Ha; reflexivity|].
+      replace (n q <? zlen T (vs q)) with false by (symmetry; apply Z.ltb_ge; lia).
+      rewrite Hl, Hn'. reflexivity.
+  - (* Push *)
+    destruct (Z_lt_dec (n q) (zlen T (vs q))) as [R|R].
+    + destruct (push_room q v c Hinv R) as (q' & Hs & Hi & Ha & Hl & Hn').
+      rewrite Hs. cbn [bind]. do 2 eexists. split; [reflexivity|]. split; [exact Hi|].
+      split; [rewrite Ha; reflexivity|].
+      replace (n q <? zlen T (vs q)) with true by (symmetry; apply Z.ltb_lt; lia).
+      rewrite Hl, Hn'. reflexivity.
+    + destruct (push_grow q v c Hinv R) as (q' & Hs & Hi & Ha & Hl & Hn'); [lia|].
+      rewrite Hs. cbn [bind]. do 2 eexists. split; [reflexivity|]. split; [exact Hi|].
+      split; [rewrite Ha; reflexivity|].
+      replace (n q <? zlen T (vs q)) with false by (symmetry; apply Z.ltb_ge; lia).
+      rewrite Hl, Hn'. reflexivity.
+  - (* Pop *)
+    destruct (Z.eq_dec (n q) 0) as [E|E].
+    + rewrite pop_empty_q by assumption. cbn [bind]. do 2 eexists. split; [reflexivity|].
+      split; [exact Hinv|]. rewrite abs_nil by lia. split; [reflexivity|]. rewrite E. reflexivity.
+    + destruct (pop_nonempty q Hinv) as (q' & x & Hs & Hi & Ha & Hl & Hn'); [lia|].
+      rewrite Hs. cbn [bind]. do 2 eexists. split; [reflexivity|]. split; [exact Hi|].
+      rewrite Ha. split; [reflexivity|].
+      replace (n q =? 0) with false by (symmetry; apply Z.eqb_neq; lia).
+      rewrite Hl, Hn'. reflexivity.
+  - (* PopLast *)
+    destruct (Z.eq_dec (n q) 0) as [E|E].
+    + rewrite pop_last_empty_q by assumption. cbn [bind]. do 2 eexists. split; [reflexivity|].
+      split; [exact Hinv|]. rewrite abs_nil by lia. split; [reflexivity|]. rewrite E. reflexivity.
+    + destruct (pop_last_nonempty q Hinv) as (q' & x & Hs & Hi & Ha & Hl & Hn'); [lia|].
+      rewrite Hs. cbn [bind]. do 2 eexists. split; [reflexivity|]. split; [exact Hi|].
+      rewrite Ha. split.
+      * destruct (abs q' ++ [x]) eqn:El; [destruct (abs q'); discriminate|].
+        rewrite <- El. rewrite removelast_last, last_last. reflexivity.
+      * replace (n q =? 0) with false by (symmetry; apply Z.eqb_neq; lia).
+        rewrite Hl, Hn'. reflexivity.
+  - (* Clear *)
+    do 2 eexists. split; [reflexivity|]. split; [|split; reflexivity].
+    unfold inv, clear, clear_head, clear_n; cbn. lia.
+  - (* Len *)
+    do 2 eexists. split; [reflexivity|]. split; [exact Hinv|]. split; [|reflexivity].
+    unfold len, len_ret. rewrite abs_length. rewrite Z2Nat.id by lia. reflexivity.
+  - (* IsEmpty *)
+    do 2 eexists. split; [reflexivity|]. split; [exact Hinv|]. split; [|reflexivity].
+    unfold is_empty, isempty_ret. destruct (n q =? 0) eqn:E; zb.
+    + rewrite abs_nil by lia. reflexivity.
+    + destruct (abs_cons_of_pos q) as (x & r & Hx); [lia|]. rewrite Hx. reflexivity.
+  - (* Front *)
+    rewrite front_ok by assumption. cbn [bind]. do 2 eexists. split; [reflexivity|].
+    split; [exact Hinv|]. split; reflexivity.
+  - (* Peek *)
+    rewrite peek_ok by assumption. cbn [bind].
+    destruct (spec_peek T zero (abs q) k) as [x ok].
+    do 2 eexists. split; [reflexivity|]. split; [exact Hinv|]. split; reflexivity.
+  - (* Each *)
+    rewrite each_ok by assumption. cbn [bind].
+    pose proof (spec_each_collect (abs q) [] m) as Hc.
+    destruct (spec_each T (collect T) (abs q) ([], m)) as [acc b]. cbn [fst app] in Hc. subst acc.
+    do 2 eexists. split; [reflexivity|]. split; [exact Hinv|]. split; reflexivity.
+  - (* Slice *)
+    rewrite slice_ok by assumption. cbn [bind]. do 2 eexists. split; [reflexivity|].
+    split; [exact Hinv|]. split; reflexivity.
+Qed.
+
+Lemma step_bad_oracle : forall q o, inv q -> ~ oracle_valid T (zlen T (vs q)) (n q) o ->
+  step T zero q o = BadOracle.
+Proof.
+  intros q o Hinv Hval.
+  destruct o as [v c|v c| | | | | | |k|m|]; cbn [oracle_valid] in Hval; try (exfalso; apply Hval; exact I).
+  - cbn [step]. rewrite add_bad_oracle; [reflexivity|assumption|lia|lia].
+  - cbn [step]. rewrite push_bad_oracle; [reflexivity|assumption|lia|lia].
+Qed.
+
+Lemma oracle_valid_dec : forall cap cnt (o : op T), {oracle_valid T cap cnt o} + {~ oracle_valid T cap cnt o}.
+Proof.
+  intros cap cnt o. destruct o as [v c|v c| | | | | | |k|m|]; cbn [oracle_valid]; try (left; exact I);
+  (destruct (Z_lt_dec cnt cap); [left; lia|]; destruct (Z_gt_dec c cap); [left; lia|right; lia]).
+Qed.
+
+(* observers leave the state alone *)
+Definition is_observer (o : op T) : bool :=
+  match o with OLen | OIsEmpty | OFront | OPeek _ | OEach _ | OSlice => true | _ => false end.
+
+Lemma observers_pure : forall q o q' r, is_observer o = true -> step T zero q o = Ok (q', r) -> q' = q.
+Proof.
+  intros q o q' r Ho Hs. destruct o; try discriminate; cbn [step] in Hs.
+  - inversion Hs; reflexivity.
+  - inversion Hs; reflexivity.
+  - destruct (front T zero q); cbn [bind] in Hs; inversion Hs; reflexivity.
+  - destruct (peek T zero q k) as [[x ok]| |]; cbn [bind] in Hs; inversion Hs; reflexivity.
+  - destruct (each T (list T * nat) (collect T) q ([], m)) as [[acc b]| |]; cbn [bind] in Hs; inversion Hs; reflexivity.
+  - destruct (slice T zero q); cbn [bind] in Hs; inversion Hs; reflexivity.
+Qed.
+
+(* ------------------------------------------------------------------ histories *)
+Theorem run_refines : forall ops q, inv q -> oracles_ok T (zlen T (vs q)) (n q) ops ->
+  run T zero q ops = map Ok (spec_run T zero (abs q) ops).
+Proof.
+  induction ops as [|o ops IH]; intros q Hinv Hor; [reflexivity|].
+  cbn [oracles_ok] in Hor. destruct Hor as [Hv Hrest].
+  destruct (step_refines q o Hinv Hv) as (q' & r & Hs & Hi & Hsp & Hc).
+  cbn [run spec_run]. rewrite Hs, Hsp. cbn [map]. f_equal.
+  apply IH; [exact Hi|]. rewrite <- Hc in Hrest. exact Hrest.
+Qed.
+
+(* whatever the oracles are: a prefix of the reference outputs, then at most one BadOracle *)
+Theorem run_any_oracle : forall ops q, inv q ->
+  exists k, run T zero q ops =
+    map Ok (firstn k (spec_run T zero (abs q) ops)) ++ (if (k <? length ops)%nat then [BadOracle] else []).
+Proof.
+  induction ops as [|o ops IH]; intros q Hinv.
+  - exists 0%nat. reflexivity.
+  - destruct (oracle_valid_dec (zlen T (vs q)) (n q) o) as [Hv|Hv].
+    + destruct (step_refines q o Hinv Hv) as (q' & r & Hs & Hi & Hsp & Hc).
+      destruct (IH q' Hi) as (k & Hk). exists (S k).
+      cbn [run spec_run]. rewrite Hs, Hsp. cbn [firstn map app length]. rewrite Hk. reflexivity.
+    + exists 0%nat. cbn [run]. rewrite step_bad_oracle by assumption. reflexivity.
+Qed.
+
+Lemma mk_init_ok : forall i, init_ok i ->
+  exists q, mk_init T zero i = Ok q /\ inv q /\ abs q = [] /\ zlen T (vs q) = init_cap i /\ n q = 0.
+Proof.
+  intros i Hi. destruct i as [| |k]; cbn [mk_init init_cap init_ok] in *.
+  - eexists. split; [reflexivity|]. unfold inv, zero_queue; cbn. repeat split; lia.
+  - eexists. split; [reflexivity|]. unfold inv, new, zero_queue; cbn. repeat split; lia.
+  - unfold new_size, newsize_len, make. replace (k <? 0) with false by (symmetry; apply Z.ltb_ge; lia).
+    cbn [of_opt bind]. eexists. split; [reflexivity|].
+    unfold inv, zlen; cbn [vs head n]. rewrite repeat_length. repeat split; lia.
+Qed.
+
+Theorem history : forall i ops, init_ok i -> oracles_ok T (init_cap i) 0 ops ->
+  run_init T zero i ops = map Ok (spec_run T zero [] ops).
+Proof.
+  intros i ops Hi Hor. destruct (mk_init_ok i Hi) as (q & Hq & Hinv & Ha & Hl & Hn).
+  unfold run_init. rewrite Hq. rewrite <- Ha. apply run_refines; [exact Hinv|].
+  rewrite Hl, Hn. exact Hor.
+Qed.
+
+Theorem history_any_oracle : forall i ops, init_ok i ->
+  exists k, run_init T zero i ops =
+    map Ok (firstn k (spec_run T zero [] ops)) ++ (if (k <? length ops)%nat then [BadOracle] else []).
+Proof.
+  intros i ops Hi. destruct (mk_init_ok i Hi) as (q & Hq & Hinv & Ha & Hl & Hn).
+  unfold run_init. rewrite Hq. rewrite <- Ha. apply run_any_oracle. exact Hinv.
+Qed.
+
+Theorem no_panic : forall i ops pk, init_ok i -> ~ In (Panic pk) (run_init T zero i ops).
+Proof.
+  intros i ops pk Hi Hin. destruct (history_any_oracle i ops Hi) as (k & Hk).
+  rewrite Hk in Hin. apply in_app_or in Hin. destruct Hin as [H|H].
+  - apply in_map_iff in H. destruct H as (x & Hx & _). discriminate.
+  - destruct (k <? length ops)%nat; cbn in H; [destruct H as [H|H]; [discriminate|contradiction]|contradiction].
+Qed.
+
+Lemma exec_refines : forall ops q, inv q -> oracles_ok T (zlen T (vs q)) (n q) ops ->
+  exists q', exec T zero q ops = Ok q' /\ inv q' /\ abs q' = spec_exec T zero (abs q) ops.
+Proof.
+  induction ops as [|o ops IH]; intros q Hinv Hor.
+  - exists q. split; [reflexivity|split; [assumption|reflexivity]].
+  - cbn [oracles_ok] in Hor. destruct Hor as [Hv Hrest].
+    destruct (step_refines q o Hinv Hv) as (q1 & r & Hs & Hi & Hsp & Hc).
+    cbn [exec spec_exec]. rewrite Hs, Hsp. cbn [bind fst].
+    apply IH; [exact Hi|]. rewrite <- Hc in Hrest. exact Hrest.
+Qed.
+
+Lemma exec_inv : forall ops q q', inv q -> exec T zero q ops = Ok q' -> inv q'.
+Proof.
+  induction ops as [|o ops IH]; intros q q' Hinv H; cbn [exec] in H.
+  - inversion H; subst; exact Hinv.
+  - destruct (oracle_valid_dec (zlen T (vs q)) (n q) o) as [Hv|Hv].
+    + destruct (step_refines q o Hinv Hv) as (q1 & r & Hs & Hi & _). rewrite Hs in H. cbn [bind] in H.
+      eapply IH; eauto.
+    + rewrite step_bad_oracle in H by assumption. discriminate.
+Qed.
+
+(* every state a history can lead to -- whatever the oracles -- satisfies the ring invariant *)
+Theorem reachable_inv : forall i ops q, init_ok i -> exec_init T zero i ops = Ok q ->
+  0 <= n q <= zlen T (vs q) /\ 0 <= head q /\ (head q < zlen T (vs q) \/ head q = 0) /\ (n q = 0 -> head q = 0).
+Proof.
+  intros i ops q Hi H. destruct (mk_init_ok i Hi) as (q0 & Hq & Hinv & _).
+  unfold exec_init in H. rewrite Hq in H. cbn [bind] in H. exact (exec_inv ops q0 q Hinv H).
+Qed.
+
+(* Each with an arbitrary (stateful) callback, and Peek at any offset, in any reachable state *)
+Theorem each_any_callback : forall i ops (A : Type) (f : A -> T -> A * bool) (a : A),
+  init_ok i -> oracles_ok T (init_cap i) 0 ops ->
+  exists q, exec_init T zero i ops = Ok q /\
+    each T A f q a = Ok (spec_each T f (spec_exec T zero [] ops) a) /\
+    (forall k, peek T zero q k = Ok (spec_peek T zero (spec_exec T zero [] ops) k)).
+Proof.
+  intros i ops A f a Hi Hor. destruct (mk_init_ok i Hi) as (q0 & Hq & Hinv & Ha & Hl & Hn).
+  destruct (exec_refines ops q0 Hinv) as (q & He & Hiq & Haq); [rewrite Hl, Hn; exact Hor|].
+  exists q. unfold exec_init. rewrite Hq. cbn [bind]. split; [exact He|].
+  rewrite Ha in Haq. rewrite <- Haq. split; [apply each_ok; exact Hiq|].
+  intros k. apply peek_ok; exact Hiq.
 Qed.
 
 End Proofs.
